@@ -287,6 +287,51 @@ def check_own(ctx):
                       bad[0][0] if bad else "", A.unparse(bad[0][1])[:50] if bad else ""), key="own:" + attr)
 
 
+GLOBAL_FIXTURE = """
+import astropy.units as u
+def bad(x):
+    u.set_enabled_equivalencies(u.dimensionless_angles())
+    return x.to(u.day)
+def good(x):
+    with u.set_enabled_equivalencies(u.dimensionless_angles()):
+        return x.to(u.day)
+"""
+GLOBAL_SETTERS = {"set_enabled_equivalencies", "add_enabled_equivalencies", "set_enabled_units", "add_enabled_units", "set_enabled_aliases", "add_enabled_aliases"}
+
+
+def global_unit_state(tree):
+    """calls that change astropy's process-wide unit registry and are not the context expression of a `with`"""
+    out = []
+    for n in ast.walk(tree):
+        if isinstance(n, ast.Call) and isinstance(n.func, ast.Attribute) and n.func.attr in GLOBAL_SETTERS:
+            par = getattr(n, "_parent", None)
+            if isinstance(par, ast.withitem) and par.context_expr is n:
+                continue
+            out.append(n)
+    return out
+
+
+def check_global_units(ctx):
+    R = "C18-GLOBAL"
+    ctx.rule(R, "the unit checks that reject mis-united priors (`unit.is_equivalent(...)`) rely on astropy's default equivalencies: nothing in the package changes the process-wide "
+                "unit registry (set_/add_enabled_equivalencies, set_/add_enabled_units) except as the context expression of a `with` block, which restores it.")
+    from ..loader import _link
+    ft = ast.parse(GLOBAL_FIXTURE)
+    _link(ft, None)
+    if len(global_unit_state(ft)) != 1:
+        ctx.incomplete_(R, "fixture", "the scanner no longer separates the bare call from the `with` form")
+    n = 0
+    for mn, m in sorted(ctx.prog.modules.items()):
+        hits = global_unit_state(m.tree)
+        n += 1
+        for h in hits:
+            ctx.violate(R, h, "no process-wide change of the unit registry", "`%s` outside a `with`: the equivalency stays enabled for the rest of the session, so e.g. an eccentricity prior "
+                        "declared in degrees or an angle declared dimensionless passes the unit validation afterwards" % A.unparse(h)[:70], key="global:" + mn)
+        if not hits:
+            ctx.ok(R, (m.relpath, 1, mn + ".<module>"), "no global unit-registry change in %s" % mn, nontrivial=False)
+    ctx.floor(R, n, 15)
+
+
 def check_try(ctx):
     R = "C18-TRY"
     ctx.rule(R, "conversions that validate by attempting them (dict(pars), list(v0_offsets), int(poly_trend), int(n_offsets), enumerate(data)) sit in a try whose "
@@ -401,4 +446,5 @@ def run(ctx):
     check_order(ctx)
     check_count(ctx)
     check_own(ctx)
+    check_global_units(ctx)
     ctx.assume("pymc / astropy raise for unit-less or non-tensor objects inside library calls (exception types inside libraries are not decided)")
